@@ -362,6 +362,14 @@ BREAKING = [
     ('c02-closure-message-value', ['C02', 'C06'], [(A, CNOT, CNOT_MSG.replace('fields[field] == value', 'fields[field] != value'))]),
 ]
 
+BREAKING += [
+    # `except ValueError:` around int(reg, base=0): an *int* register (the pre-bound rd=0 / rs1=0 of ecall, ebreak, fence, fence.i)
+    # raises TypeError, so those four mnemonics can never be encoded.  Listed as "undecided" until round 7: the no-verdict for the
+    # open spellings of `add` ended the run before the always-refused bindings were reported (a masked verdict; confirmed by running
+    # the edited function: ECALL() -> TypeError)
+    ('c01-enc-except-valueerror', ['C01'], [(A, INT_TRY, "    except ValueError:\n        pass\n\n    # at this point")]),
+]
+
 UNDECIDED = [
     # a table entry whose bit is the exclusive-or of two index bits has no single-bit provenance
     ('u-enc-constant-table-xor', ['C02'], const_table('(imm_6 ^ imm_4)')),
@@ -369,6 +377,4 @@ UNDECIDED = [
     ('u-enc-fence-succ-negative-unguarded', ['C06'], [(A, FENCE_SUCC_GUARD, "    if pred < 0b0000 or succ > 0b1111:\n        raise ValueError('invalid successor value for FENCE instruction: {}'.format(succ))\n")]),
     # overlapping fields added with carries: not a bit-disjoint union, no closed form in the domain
     ('u-enc-fields-by-arithmetic-overlap', ['C01'], [(A, FENCE_IMM, "    imm = fm * 256 + pred * 8 + succ\n")]),
-    # int spellings of a register (ecall's pre-bound rd=0, numeric operands) would raise TypeError: not modelled per spelling
-    ('u-enc-except-valueerror', ['C01'], [(A, INT_TRY, "    except ValueError:\n        pass\n\n    # at this point")]),
 ]
